@@ -666,6 +666,9 @@ pub fn run_c15(a: &Args, rep: &mut Report) {
     // systematic part: every opcode x register byte x extreme offsets
     let mut progs: Vec<Vec<Insn>> = Vec::new();
     for (oi, opc) in ops.iter().enumerate() {
+        if cfg!(miri) {
+            break;
+        }
         if oi as u64 % a.nshards != a.shard % a.nshards && a.nshards > 1 {
             continue;
         }
@@ -861,7 +864,10 @@ pub fn run_c17(a: &Args, rep: &mut Report) {
     };
     // exhaustive opcode x register byte
     for code in 0..65536u32 {
-        if code as u64 % a.nshards != a.shard {
+        if cfg!(miri) && code % 4099 != 0 {
+            continue;
+        }
+        if !cfg!(miri) && code as u64 % a.nshards != a.shard {
             continue;
         }
         let i = Insn::new((code >> 8) as u8, code as u8 & 15, (code as u8) >> 4, rng.next() as i16, rng.next() as i32);
@@ -870,7 +876,10 @@ pub fn run_c17(a: &Args, rep: &mut Report) {
     }
     // exhaustive offsets
     for off in 0..65536u32 {
-        if off as u64 % a.nshards != a.shard {
+        if cfg!(miri) && off % 4099 != 0 {
+            continue;
+        }
+        if !cfg!(miri) && off as u64 % a.nshards != a.shard {
             continue;
         }
         let i = Insn::new(rng.next() as u8, rng.below(16) as u8, rng.below(16) as u8, off as u16 as i16, rng.next() as i32);
@@ -883,7 +892,7 @@ pub fn run_c17(a: &Args, rep: &mut Report) {
         rep.sample(json!({"insn": format!("{i:?}"), "bytes": hex(&i.bytes()), "check": "get_insn(to_array(i)) == i at index 0..4, to_array == to_vec"}));
     }
     // immediates: all 2^32 in the thorough tier (sliced), boundary + random in quick
-    if q {
+    if q || cfg!(miri) {
         let n = (2_000_000.0 * a.scale) as u64 / a.nshards;
         for _ in 0..n {
             let i = Insn::new(rng.next() as u8, rng.below(16) as u8, rng.below(16) as u8, rng.next() as i16, rng.interesting_i32().0);
